@@ -1014,6 +1014,8 @@ def expr_ops(prog, fn, op, depth=0, seen=None):
     if (fn.id, l) in seen:
         return out
     seen.add((fn.id, l))
+    if 1 <= l <= fn.nargs:
+        return out          # a parameter is a leaf (its incoming value is a definition of its own)
     ds = [d for d in fn.defs.get(l, []) if d[0] in ('=', 'call')]
     if len(ds) != 1:
         return out
